@@ -1,9 +1,14 @@
 (* Executable entry points for the C14 correspondence shards (the `adlt` binary vs Convert/Select.v).
    One case = one invocation of `adlt convert`.
-   Input: the files (canonical path number, number of messages inside the first 512 KiB, messages as
-   (uid, ecu, reception time us, timestamp us, has timestamp, is control request, verdict of every filter of
-   the filter vector)), the file
-   arguments (None: a name that cannot be opened), the options.
+   Input as the harness writes it ([case_C14]): the files (canonical path number, number of messages inside the
+   first 512 KiB, messages as (uid, ecu, reception time us, timestamp us, has timestamp, is control request,
+   header parts Filter::matches reads = ECU id bytes + extended header (type byte, APID, CTID) if any)), the file
+   arguments (None: a name that cannot be opened), the options with the filter SOURCES as the user wrote them
+   (the <filter> elements of the DLF file / the bytes of the dlt-convert format file, then the --eac expressions),
+   and the real regex engine's answers for the (pattern, id) pairs of the case.
+   [elab] loads the filters with the front-end models of C11 (Filter/Frontends.v via Convert/Verdict.v), evaluates
+   the model of Filter::matches (Filter/Match.v) for every message and filter, and produces the [raw_case] the
+   convert model works on: messages carrying the verdict of every filter of the filter vector.
    Observation of the implementation:  T [L status; T baseline; T screen; file; listing]
      baseline : uids in the order of `adlt convert -s <same file arguments>` (the unfiltered, numbered input)
      screen   : T [L index; L uid] per stdout message line
@@ -16,13 +21,39 @@
    exactly the screen lines / file content / listing observed (with --sort: the same messages in any order). *)
 From Coq Require Import List NArith Bool.
 From AdltV Require Import Base.Obs Base.Res Base.MachInt Merge.Multi Filter.Sets Lifecycle.Model Convert.Select.
+From AdltV Require Export Convert.Verdict.
 Import ListNotations.
 Open Scope N_scope.
 
 Definition raw_msg := (N * N * N * N * bool * bool * list bool)%type.
 Definition raw_file := (N * N * list raw_msg)%type.
 Definition raw_opts := (N * N * list N * list (N * bool) * bool * N * bool * option (list N))%type.
-Definition case_C14 := (list raw_file * list (option N) * raw_opts)%type.
+Definition raw_case := (list raw_file * list (option N) * raw_opts)%type.
+
+(* ---- the case as the harness writes it, and its elaboration *)
+Definition src_msg := (N * N * N * N * bool * bool * hdr)%type.
+Definition src_file := (N * N * list src_msg)%type.
+Definition src_opts := (N * N * list N * list fsrc * bool * N * bool * option (list N))%type.
+Definition case_C14 := (list src_file * list (option N) * src_opts * (vtable * rtable))%type.
+
+Section Elab.
+  (* Filter::matches for every filter of the vector *)
+  Variable fv_of : hdr -> list bool.
+  Definition elab_msg (t : src_msg) : raw_msg :=
+    let '(uid, e, rt, ts, has_ts, creq, h) := t in (uid, e, rt, ts, has_ts, creq, fv_of h).
+  Definition elab_file (t : src_file) : raw_file :=
+    let '(p, scan, ms) := t in (p, scan, map elab_msg ms).
+End Elab.
+(* None: an --eac expression is rejected (the command fails in clap; the harness generates no such case) *)
+Definition elab (c : case_C14) : option raw_case :=
+  let '(files, args, so, tbl) := c in
+  let '(b, e, lcs, srcs, srt, style, ofile, prior) := so in
+  match load_all (valid_of (fst tbl)) srcs with
+  | Some fs =>
+      Some (map (elab_file (verdicts (re_of (snd tbl)) fs)) files, args,
+            (b, e, lcs, map kind_enabled fs, srt, style, ofile, prior))
+  | None => None
+  end.
 
 Definition mk_cmsg (t : raw_msg) : cmsg :=
   let '(uid, e, rt, ts, has_ts, creq, fv) := t in
@@ -140,7 +171,7 @@ Definition merged_ok (its : list (list cmsg)) (base : list N) : option (list cms
       end
   end.
 
-Definition agree_C14 (c : case_C14) (o : otree) : bool :=
+Definition agree_raw (c : raw_case) (o : otree) : bool :=
   let '(rfiles, rargs, ropts) := c in
   let args := mk_args (map mk_file rfiles) rargs in
   let op := mk_opts ropts in
@@ -180,7 +211,7 @@ Definition agree_C14 (c : case_C14) (o : otree) : bool :=
   end.
 
 (* diagnostics: the run of the model in which the heap pops the first minimal entry and --sort changes nothing *)
-Definition run_C14 (c : case_C14) : otree :=
+Definition run_raw (c : raw_case) : otree :=
   let '(rfiles, rargs, ropts) := c in
   let args := mk_args (map mk_file rfiles) rargs in
   let op := mk_opts ropts in
@@ -189,3 +220,8 @@ Definition run_C14 (c : case_C14) : otree :=
   | Ok (Some r), Ok merged => o_outcome (o_style op) (mk_prior ropts) merged r
   | _, _ => T [L 2]
   end.
+
+Definition agree_C14 (c : case_C14) (o : otree) : bool :=
+  match elab c with Some rc => agree_raw rc o | None => false end.
+Definition run_C14 (c : case_C14) : otree :=
+  match elab c with Some rc => run_raw rc | None => T [L 3] end.
